@@ -536,10 +536,10 @@ def gen_vpar(rng, n):
     return calls
 
 
-def _poloidal_setup(rng, rs, fast):
+def _poloidal_setup(rng, rs, fast, degs=(1, 2, 3, 3, 4, 5)):
     d = _phys(rng)
-    Sq = random_space(rng, fast=fast, periodic=True, a=0.0, b=TWO_PI, max_cells=9, p=None if fast else rng.choice([1, 2, 3, 3, 4, 5]), kinds=["uniform", "random"])
-    Sr = random_space(rng, fast=fast, periodic=False, a=d["rmin"], b=d["rmax"], max_cells=8, p=None if fast else rng.choice([1, 2, 3, 3, 4, 5]), kinds=["uniform", "random"])
+    Sq = random_space(rng, fast=fast, periodic=True, a=0.0, b=TWO_PI, max_cells=9, p=None if fast else rng.choice(list(degs)), kinds=["uniform", "random"])
+    Sr = random_space(rng, fast=fast, periodic=False, a=d["rmin"], b=d["rmax"], max_cells=8, p=None if fast else rng.choice(list(degs)), kinds=["uniform", "random"])
     if Sr.ncells < 2:
         Sr = Space(rng, Sr.p, 2 + rng.randint(0, 3), False, Sr.kind, d["rmin"], d["rmax"])
     nq, nr = rng.randint(3, 8), rng.randint(3, 7)
@@ -561,6 +561,40 @@ def _poloidal_setup(rng, rs, fast):
     return d, Sq, Sr, qPts, rPts, cphi, cpol, A, m
 
 
+def _sample_cells(breaks, per_cell=6):
+    out = []
+    for lo, hi in zip(breaks[:-1], breaks[1:]):
+        h = hi - lo
+        out.extend(np.linspace(lo + 1e-9 * h, hi - 1e-9 * h, per_cell))
+    return np.array(out)
+
+
+def drift_bounds(Sq, Sr, cphi):
+    """max |d_r phi / r|, max |d_q phi / r| and a bound of the max-norm Lipschitz constant of the drift field
+    (-d_r phi / r, d_q phi / r) over the domain, from scipy's B-splines on a per-cell sample (x 1.5)"""
+    from scipy.interpolate import BSpline
+    xq, xr = _sample_cells(Sq.breaks), _sample_cells(Sr.breaks)
+    bq = BSpline(Sq.T, np.eye(Sq.n), Sq.p)
+    br = BSpline(Sr.T, np.eye(Sr.n), Sr.p)
+
+    def mats(b, x, p):
+        out = [b(x)]
+        for k in (1, 2):
+            out.append(b.derivative(k)(x) if k <= p else np.zeros((len(x), b.c.shape[0])))
+        return out
+    q0, q1, q2 = mats(bq, xq, Sq.p)
+    r0, r1, r2 = mats(br, xr, Sr.p)
+    R = xr[None, :]
+    f_q, f_r = q1 @ cphi @ r0.T, q0 @ cphi @ r1.T
+    f_qq, f_qr, f_rr = q2 @ cphi @ r0.T, q1 @ cphi @ r1.T, q0 @ cphi @ r2.T
+    vq = float(np.max(np.abs(f_r) / R))
+    vr = float(np.max(np.abs(f_q) / R))
+    row1 = np.abs(f_qr) / R + np.abs(f_rr) / R + np.abs(f_r) / R ** 2
+    row2 = np.abs(f_qq) / R + np.abs(f_qr) / R + np.abs(f_q) / R ** 2
+    lip = 1.5 * float(max(row1.max(), row2.max()))
+    return vq, vr, lip
+
+
 def gen_poloidal(rng, n, scheme):
     """scheme: 'expl' | 'impl'"""
     mod = "accelerated_advection_steps"
@@ -568,20 +602,26 @@ def gen_poloidal(rng, n, scheme):
     calls = []
     for it in range(n):
         fast = rng.random() < 0.5
-        d, Sq, Sr, qPts, rPts, cphi, cpol, A, m = _poloidal_setup(rng, rs, fast)
+        # implicit scheme: the drift must be Lipschitz for the fixed-point iteration to converge -> degree >= 2
+        d, Sq, Sr, qPts, rPts, cphi, cpol, A, m = _poloidal_setup(rng, rs, fast, (2, 3, 3, 4, 5) if scheme == "impl" else (1, 2, 3, 3, 4, 5))
         k1, k2 = (Sq.cu, Sr.cu) if fast else (Sq.T, Sr.T)
         nq, nr = len(qPts), len(rPts)
         B0 = d["B0"]
         hr = (Sr.b - Sr.a) / max(nr - 1, 1)
-        # bounds on the drift built from the coefficient matrix (derivative of a spline is bounded by
-        # p/h times the coefficient range); the time step moves a foot by at most `cells` radial cells
+        # rigorous (coarse) bounds from the coefficient matrix -- a derivative of a spline is bounded by 2p/h times
+        # the coefficient range -- enter the tolerances only
         dq_s, dr_s = 2.0 * Sq.p / Sq.hmin, 2.0 * Sr.p / Sr.hmin
         cpm = float(np.abs(cphi).max())
-        vel = cpm * max(dq_s, dr_s) / Sr.a
         disp = rng.choice([0.05, 0.3]) if scheme == "impl" else rng.choice([0.05, 0.3, 1.0])
-        # a realistic (smooth-data) drift estimate for the step size; the rigorous bound above only enters the tolerance
-        vel_est = A * 1.5 * max(m, 1.0) / Sr.a
-        dt = rng.choice([-1, 1]) * disp * min(hr, 1.0) * B0 / vel_est
+        # measured (sampled, independent scipy evaluation) size of the drift and of its Jacobian: the time step
+        # moves a foot by about `disp` radial grid cells and, for the implicit scheme, keeps the fixed-point map
+        # a contraction with factor <= 1/4 (an unbounded iteration is C12's subject, not this property's)
+        vq, vr, lip = drift_bounds(Sq, Sr, cphi)
+        dt = disp * min(hr, 1.0) * B0 / max(vr, 1e-300)
+        dt = min(dt, 0.5 * (TWO_PI / len(qPts)) * B0 / max(vq, 1e-300) * 4)
+        if scheme == "impl":
+            dt = min(dt, B0 / (3.0 * max(lip, 1e-300)))
+        dt *= rng.choice([-1, 1])
         if rng.random() < 0.15:
             dt = 0.0
         v = rng.uniform(-d["vmax"], d["vmax"])
